@@ -1,11 +1,11 @@
-// counterexamples for harness c12::c12_partition_f64_small_n0 (property C12); replay: ./check C12 --replay <this file>
+// counterexamples for harness c12::c12_quantile_single_any_n3 (property C12); replay: ./check C12 --replay <this file>
 // features: c12
 #![allow(unused_imports)]
 use crate::c12::*;
 
-/// Test generated for harness `c12::c12_partition_f64_small_n0` 
+/// Test generated for harness `c12::c12_quantile_single_any_n3` 
 ///
-/// Check for `cover`: "largest elements requested"
+/// Check for `assertion`: ""quantile is null only when there is no valid element""
 ///
 /// # Warning
 ///
@@ -19,19 +19,27 @@ use crate::c12::*;
 /// logic.
 
 #[test]
-fn kani_concrete_playback_c12_partition_f64_small_n0_16734997370842202295() {
+fn kani_concrete_playback_c12_quantile_single_any_n3_4580285121587050355() {
     let concrete_vals: Vec<Vec<u8>> = vec![
+        // 0
+        vec![0],
         // 0
         vec![0],
         // 1
         vec![1],
+        // 1073741825
+        vec![1, 0, 0, 64],
+        // 6ul
+        vec![6, 0, 0, 0, 0, 0, 0, 0],
+        // 0
+        vec![0],
     ];
-    kani::concrete_playback_run(concrete_vals, c12_partition_f64_small_n0);
+    kani::concrete_playback_run(concrete_vals, c12_quantile_single_any_n3);
 }
 
-/// Test generated for harness `c12::c12_partition_f64_small_n0` 
+/// Test generated for harness `c12::c12_quantile_single_any_n3` 
 ///
-/// Check for `assertion`: ""partition yields exactly k+1 entries""
+/// Check for `cover`: "q above one half"
 ///
 /// # Warning
 ///
@@ -45,12 +53,20 @@ fn kani_concrete_playback_c12_partition_f64_small_n0_16734997370842202295() {
 /// logic.
 
 #[test]
-fn kani_concrete_playback_c12_partition_f64_small_n0_13375333527298533255() {
+fn kani_concrete_playback_c12_quantile_single_any_n3_2384762159439347031() {
     let concrete_vals: Vec<Vec<u8>> = vec![
         // 1
         vec![1],
+        // -256
+        vec![0, 255, 255, 255],
+        // 0
+        vec![0],
+        // 0
+        vec![0],
+        // 5ul
+        vec![5, 0, 0, 0, 0, 0, 0, 0],
         // 1
         vec![1],
     ];
-    kani::concrete_playback_run(concrete_vals, c12_partition_f64_small_n0);
+    kani::concrete_playback_run(concrete_vals, c12_quantile_single_any_n3);
 }
